@@ -218,4 +218,16 @@ PROPS = {
             "thorough": [dict(test="TestC19Multi", checks=300000, shards=16, timeout=3000)],
         },
     ),
+    "C12": dict(
+        kind="ext", pkg="./c12", level="exploration", engine="rapid",
+        technique="property-based testing of the real create-cluster CLI with independent (spec-derived) verification of every artifact, plus structural mutation of valid locks: every JSON leaf x alteration must break decoding, hash or signature verification (exhaustive grid in the thorough tier)",
+        level_text="Generated create-cluster configurations through cmd.New(): lock hashes and signatures, key-share / public-share correspondence, deposit data and builder registrations verified with harness-side spec signing, share recombination, combine output. "
+                   "Tamper evidence: every leaf and array of valid locks of versions v1.0..v1.11 under representative alterations must be detected; decode / re-encode must preserve all hashes.",
+        level_note="Fully verifiable (hash + signature) bases exist for v1.1, v1.2, v1.7 (committed examples) and v1.10, v1.11 (cluster.NewForT); the other versions are covered by the per-version golden locks with hash verification only. "
+                   "Genesis fork versions of the test networks are restated in the harness; herumi BLS is trusted.",
+        runs={
+            "quick": [dict(test="TestC12Create", checks=30, shards=4, shrinktime="15s"), dict(test="TestC12Tamper", checks=4000), dict(test="TestC12ReEncode", mode="plain")],
+            "thorough": [dict(test="TestC12Create", checks=400, shards=14, timeout=3000), dict(test="TestC12Tamper", checks=100000, timeout=3000), dict(test="TestC12ReEncode", mode="plain")],
+        },
+    ),
 }
